@@ -6,7 +6,7 @@ V = os.path.dirname(os.path.dirname(os.path.abspath(__file__)))
 
 TB = ("TLC 1.8 and the hand-written specification (spec/*.tla); the conformance harness (harness/*.cpp) that projects "
       "real objects through public accessors; g++ 12 / libstdc++; bounded domains of spec/Domains.tla standing for all "
-      "inputs by the small-scope arguments of DESIGN.md 2.5")
+      "inputs by the small-scope arguments of DESIGN.md 2.5 (incl. the size sweep over interval counts and the high-order cases of section 11a)")
 
 CHECKS = {
  "C18": ("model_checking", "TLC explores every interleaving of the Sharing model (threads x shared immutable block x atomic count x guarded static, micro-step granularity): no read of freed storage, count = live handles, freed exactly once, every thread's values equal its sequential values, termination under weak fairness; the three negative controls (non-atomic count, unguarded static, shared scratch) must be rejected. On the code: 2..16 threads run the TLC-generated cases simultaneously on shared const operands/operators/forms/generators, in a free-running and in a lockstep schedule (neighbouring cases - same instantiation, different data - at the very same time); per-thread logs must be identical to the sequential log (exact scalar as text, double as bit patterns), logs are validated by TLC against the sequential contracts, use counts must return to the pre-spawn values, and the ThreadSanitizer build observes races.", "5 C18",
@@ -19,7 +19,7 @@ CHECKS = {
          "TLA+ relational post-condition + TLC-generated cases + exact-solver execution of the real routine + trace validation"),
  "C16": ("exploration", "For float, double and long double the real library runs the TLC-generated well-scaled dyadic cases (generator, evaluation, + - *, operator application, linear and bilinear forms); TLC supplies the exact value E and the abs-mode magnitude S (checked by TLC to dominate |E|); the harness evaluates |F-E| <= 2^20 eps S in __float128 and TLC judges the recorded verdicts; a second pass repeats every case with full-mantissa perturbed coefficients (so that rounding really happens) against the exact-scalar run of the same call, with magnitude 2 S; inputs include a grid far from the origin relative to its spacing, an interval centred at 0 and operand orders up to 6; builds with and without BSPLINE_ADD_TEST_CHECKS must agree bit for bit (thorough: -O0/-O3/clang too).", "5 C16",
          "TLC-generated cases with exact reference and magnitude from the TLA+ spec + floating-point replay of the real code against the stated relation"),
- "C17": ("exploration", "integrate<n> (n = 1..6, polynomial weights of degree 0..3, double and long double) on TLC-generated spline pairs on both sides of the exactness bound; TLC supplies the exact weighted integral over the common intervals and its magnitude; the relation is required where 2n-1 >= o1+o2+d, only 'zero when disjoint' elsewhere.", "5 C17",
+ "C17": ("exploration", "integrate<n> (n = 1..7, polynomial weights of degree 0..6 so that total degrees up to 12 occur, double and long double; a size sweep over every interval count) on TLC-generated spline pairs on both sides of the exactness bound; TLC supplies the exact weighted integral over the common intervals and its magnitude; the relation is required where 2n-1 >= o1+o2+d, only 'zero when disjoint' elsewhere.", "5 C17",
          "TLC-generated cases with exact integral from the TLA+ spec + floating-point replay against the stated relation"),
  "C08": ("model_checking", "Every multi-spline entry point is run on TLC-enumerated grid variants (one point moved, extra point front/back/inside, prefix, suffix, equal copy in a distinct object) and placements: stateless events for + - * += -= linearCombination, supports, operators/forms with a foreign spline factor, generator with a supplied grid, integrate<n> in double/long double; plus TLC-generated histories with interleaved cross-grid calls validated sequentially (Trace_Life): refusal with DIFFERING_GRIDS, nothing returned, arguments unchanged; equal grids in distinct objects behave as one.", "5 C08",
          "TLA+ spec + TLC-generated cases and histories + stateless and sequential trace validation of refusals and frame conditions"),
@@ -29,7 +29,7 @@ CHECKS = {
          "TLA+ frame conditions (action properties) + sequential trace validation of logged deltas of the whole pool"),
  "C01": ("model_checking", "TLC checks on every enumerated knot vector that the Cox-de Boor definition has local support, partition of unity, C^{p-mu} smoothness, non-negativity and the integral identity, and that the implementation-shaped recursion (zeroth order via findElement, then prefac*(X<1>-t_i)*B_i += ...) refines it; the real generator (both routes and the free function, exact scalar) runs every knot vector and TLC accepts the logged basis iff GenPost holds; float, double and long double runs (incl. knots scaled exactly by 2^-60) are compared with the spec's exact basis and magnitude.", "5 C01",
          "TLA+ spec of the Cox-de Boor recursion + TLC model checking of its theorems and of the implementation-shaped model + trace validation of generated bases from the real code"),
- "C04": ("model_checking", "TLC checks falling-factorial derivative and binomial position expansion (Level I) against d^n/du^n and n-fold multiplication by (u+xm) (Level A); the real Dx<n>, X<n>, IdentityOperator are applied with the exact scalar to unit-vector and generic splines on every window incl. an off-origin grid and validated by TLC.", "5 C04",
+ "C04": ("model_checking", "TLC checks falling-factorial derivative and binomial position expansion (Level I) against d^n/du^n and n-fold multiplication by (u+xm) (Level A); the real Dx<n>, X<n>, IdentityOperator are applied with the exact scalar to unit-vector and generic splines on every window incl. an off-origin grid, on a size sweep (every interval count 1..40, 63..66) and on orders 7..24 incl. Dx<8..12> (judged on the contract), and validated by TLC.", "5 C04",
          "TLA+ spec + TLC model checking + trace validation of TLC-enumerated (operator, spline) cases compiled from the spec's ASTs"),
  "C05": ("model_checking", "Every AST TLC enumerates (all depth<=2 trees over Id, X, Dx, spline factor and scalars of type T/int/unsigned in every position, plus named identities) is compiled as the C++ expression it spells and applied to TLC-enumerated operand/factor placements; TLC validates each result against DenApply (structural recursion on textbook definitions) after checking that the implementation-shaped TransformI refines it.", "5 C05",
          "TLA+ spec of operator ASTs + TLC model checking + generated C++ per AST + trace validation"),
@@ -43,11 +43,11 @@ CHECKS = {
          "compile the library against a minimal exact scalar archetype (the C++ mirror of the spec's scalar signature) + exact replay of TLC-generated cases"),
  "C02": ("model_checking", "TLC explores MC_Spl (Level-I evaluation model => Level-A EvalPost on every explored case) and emits the cases; the real operator()/front()/back() are run with the exact scalar Rat on every case and TLC (Trace_Stateless, view C02) accepts each recorded event only if EvalPost holds between logged spline, abscissa and value. Exhaustive over all windows of the domain grids, orders, coefficient variants incl. discontinuous pieces, and probes in every region.", "5 C02",
          "TLA+ spec + TLC model checking (I=>A) + TLC-generated cases replayed in the real code, events validated by TLC against the Level-A contract"),
- "C03": ("model_checking", "TLC checks that the implementation-shaped models of + - * scalar ops, cross-order assignment and linearCombination satisfy the Den-level contracts on every explored operand pair, and emits the pairs; the real operators (exact scalar) execute every case and TLC validates every recorded result against the contract (view C03).", "5 C03",
+ "C03": ("model_checking", "TLC checks that the implementation-shaped models of + - * scalar ops, cross-order assignment and linearCombination satisfy the Den-level contracts on every explored operand pair, and emits the pairs; the real operators (exact scalar) execute every case and TLC validates every recorded result against the contract (view C03); the domain includes a long grid, operand orders up to 5 and a size sweep over every interval count 1..40, 63..66.", "5 C03",
          "TLA+ spec + TLC model checking (I=>A, algebraic laws) + trace validation of TLC-generated cases executed by the real code"),
  "C13": ("model_checking", "Apalache discharges the window lattice laws and the index-conversion guards over unbounded integers with the true modulus 2^64 (and refutes the pinned formulations); TLC checks the support lattice laws, Level I => Level A for union/intersection/equality/index conversions over the whole model index word, and emits all windows, pairs, triples and index arguments (incl. 2^64-k) of the domain; real Support<Rat> objects execute them and TLC validates every recorded result on the representation (view C13).", "5 C13",
          "TLA+ spec + TLC exhaustive model checking of the index/window algebra + trace validation of all enumerated calls on real Support objects"),
- "C15": ("model_checking", "TLC checks IsZeroI/OverlapI/SplEqI against their contracts on every explored spline/pair and emits them; isZero, checkOverlap, ==, != of the real code are validated by TLC per event (view C15).", "5 C15",
+ "C15": ("model_checking", "TLC checks IsZeroI/OverlapI/SplEqI against their contracts on every explored spline/pair and emits them; isZero, checkOverlap, ==, != of the real code are validated by TLC per event (view C15), incl. a size sweep over every interval count; signed zeros (a*0, a*-0, a-a, ...) in float, double and long double must be reported zero.", "5 C15",
          "TLA+ spec + TLC model checking + trace validation of predicates on TLC-enumerated spline pairs"),
 }
 
